@@ -59,7 +59,7 @@ def gen_database(r, nasty=0.0, size=None, allow_props=None, renderers=(0, 1), db
     allow = r.random() < 0.4 if allow_props is None else allow_props
     db = g.emit(Op(21, renderers[0], renderers[1], allow))
     info['db'] = db
-    size = size or r.choice([1, 2, 2, 3, 3, 4])
+    size = r.choice([1, 2, 2, 3, 3, 4]) if size is None else size
     # enums
     enum_slots = []
     for _ in range(r.choice([0, 0, 1, 1, 2])):
@@ -155,7 +155,7 @@ def gen_database(r, nasty=0.0, size=None, allow_props=None, renderers=(0, 1), db
         info['added'][e] = g.emit(Op(30, r.choice([0, 3]), db, e))
     # references
     tabs = info['tables']
-    for _ in range(r.choice([0, 1, 1, 2, 3])):
+    for _ in range(r.choice([0, 1, 1, 2, 3]) if tabs else 0):
         t1 = r.choice(tabs)
         t2 = r.choice(tabs)
         c1s, c2s = info['columns'][t1], info['columns'][t2]
@@ -171,7 +171,7 @@ def gen_database(r, nasty=0.0, size=None, allow_props=None, renderers=(0, 1), db
         info['refs'].append(rf)
     # groups
     for gi in range(r.choice([0, 0, 1, 2])):
-        items = r.sample(tabs, r.randint(0, len(tabs)))
+        items = r.sample(tabs, r.randint(0, len(tabs))) if tabs else []
         nt = None
         if r.random() < 0.4:
             nt = g.emit(Op(10, g.text(True)))
@@ -218,13 +218,13 @@ def observe_all(g, info, which=('sql', 'dbml'), elements=True):
 
 
 # ------------------------------------------------------------------ edits (C10)
-def gen_edits(g, info, n):
+def gen_edits(g, info, n, sql_benign=False):
     """append n random in-place edits of the kinds C10 lists"""
     r = g.r
     tabs = info['tables']
     done = []
     for _ in range(n):
-        kind = r.choice(['tname', 'tschema', 'talias', 'cname', 'ctype', 'cflag', 'cdefault', 'cnote', 'tnote', 'ename',
+        kind = r.choice(['tname', 'tschema', 'talias', 'cname', 'ctype', 'cflag', 'cflag', 'cdefault', 'cnote', 'tnote', 'ename',
                          'rtype', 'rinline', 'rname', 'raction', 'addcol', 'addidx', 'delidx', 'additem', 'tcomment',
                          'eschema', 'ccomment', 'rcomment', 'gname', 'allow'])
         t = r.choice(tabs)
